@@ -85,6 +85,46 @@ theorem schedule_progress (d : Dialect) (t : Time) (db : Db) (c : UpdateSchedule
     ∃ db' r', db.exec (defs d) (.updateSchedule c) = .ok (db', r') ∧ lag t db' < lag t db :=
   firing_reduces_lag d t db c occ hl hlt hdue hex
 
+/-- **F18 (known finding) as a theorem about the model.**  A run of the schedule sweep whose whole batch consists of
+    schedules whose id template does not evaluate submits nothing and finishes: no `UpdateSchedule` is written, the rows keep
+    their next run time, and — `ORDER BY next_run_time ASC` — the same rows are the batch of every later run.  With
+    `scheduleBatchSize` such schedules the sweep never reaches another schedule.  (The full statement of C11 — no schedule
+    with a satisfiable cron has a next run time in the past — is therefore false of the model and of the code; the
+    theorems above are its part for schedules the sweep can fire.) -/
+theorem skipped_batch_writes_nothing_F18 (env : Env) (t0 t : Time) (rows : List ScheduleRow)
+    (hdue : ∀ r ∈ rows, r.nextRunTime ≤ t)
+    (hbad : ∀ r ∈ rows, env.genId r.toSchedule.promiseId r.toSchedule.id r.toSchedule.nextRunTime = none) :
+    (schedulePromises env t0).next t [.store [.schedules rows]] = .done none := by
+  have h1 : rows.any (fun r => !(decide (r.nextRunTime ≤ t))) = false := by
+    rw [List.any_eq_false]
+    intro r hr
+    simp [hdue r hr]
+  have h2 : ∀ {β : Type} (f : ScheduleRow → Option β), (∀ r ∈ rows, f r = none) → rows.filterMap f = [] := by
+    intro β f hf
+    rw [List.filterMap_eq_nil_iff]
+    exact hf
+  simp only [schedulePromises, Co.next, h1, Bool.false_eq_true, if_false]
+  rw [h2 _ (by
+    intro r hr
+    show (match env.cronNext r.toSchedule.cron r.toSchedule.nextRunTime, env.genId r.toSchedule.promiseId r.toSchedule.id r.toSchedule.nextRunTime with
+      | some _, some _ => _
+      | _, _ => none) = none
+    rw [hbad r hr]
+    split <;> simp_all)]
+  rfl
+
+/-- **F16 (known finding), capacity form**: a run fires at most one occurrence per row it read, hence at most
+    `scheduleBatchSize` occurrences (`C10.read_schedules_limit`-style bound on the rows is the store's `LIMIT`) -/
+theorem sweep_fires_at_most_one_per_row (env : Env) (t0 t : Time) (rows : List ScheduleRow) :
+    ((schedulePromises env t0).next t [.store [.schedules rows]]).subs.length ≤ rows.length := by
+  simp only [schedulePromises, Co.next]
+  split
+  · simp [Co.subs]
+  · split
+    · simp [Co.subs]
+    · simp only [Co.subs, List.length_map]
+      exact List.length_filterMap_le _ _
+
 /-- the model's cron semantics (grid crons) always yields a strictly later time -/
 theorem grid_next_is_later (cron : String) (p : Int) (t : Int) (hp : 0 < p) (h : cronGrid cron = some p) :
     ∃ n, cronNextModel cron t = some n ∧ t < n := by
